@@ -211,12 +211,9 @@ def runModel (ops : Array String) : IO Unit := do
     s := s'
     out.putStrLn o
 
-def sameTables (a b : State) : Bool :=
-  a.htlcs == b.htlcs && a.queue == b.queue && a.supplies == b.supplies && a.params == b.params &&
-  a.prevTime == b.prevTime && a.height == b.height && a.time == b.time &&
-  Spec.C03.sameBalances a.bank b.bank && a.bank.supply == b.bank.supply
-
-/-- monitor: pre-state is the previous *implementation* observation -/
+/-- monitor: pre-state is the previous *implementation* observation; every clause is evaluated by
+`Spec.C03.stepFails` / `Spec.C03.stepFails13` / `Spec.C04.stepFails` (proved to return `[]` on
+every model step: Proofs/HtlcMonitor.lean) -/
 def runMonitor (prop : String) (ops obs : Array String) : IO Unit := do
   let out ← IO.getStdout
   if ops.size ≠ obs.size then
@@ -236,62 +233,23 @@ def runMonitor (prop : String) (ops obs : Array String) : IO Unit := do
       match parseState o with
       | some s =>
         pre := s; s0 := s; consecutive := true
-        if prop == "C03" || prop == "C13" then
-          if !(Spec.C03.queueOk s) then fail "queue-bijection"; fails := fails + 1
-        else
-          if !(Spec.C04.escrowEqB s && Spec.C04.countersB s && Spec.C04.limitsB s) then
-            fail "reset-state"; fails := fails + 1
+        let fs := if prop == "C04" then Spec.C04.resetFails s else Spec.C03.resetFails s
+        for c in fs do
+          fail c; fails := fails + 1
       | none => fail "obs-parse"; fails := fails + 1
     | _ =>
       match parseOp t, parseState o with
       | some op, some post =>
         steps := steps + 1
         let accepted := o.head? == some "ok"
-        if o.head? == some "panic" then
-          fail "panic"; fails := fails + 1
-        let isBlock := match op with | .beginBlock _ _ => true | .advance _ _ => true | _ => false
-        if isBlock && !accepted then
-          fail "begin-block-aborted"; fails := fails + 1
-        match op with
-        | .beginBlock h _ => if h != pre.height + 1 then consecutive := false
-        | _ => pure ()
-        if prop == "C13" then
-          -- HTLC slice of C13: begin block completes (above), each due contract is refunded in the
-          -- block of its expiration height and only then, exactly once (closed records are frozen),
-          -- queue entries <-> open contracts, nothing queued at or below the current height
-          if !(Spec.C03.progressOk pre op accepted post) then fail "due-not-processed"; fails := fails + 1
-          if !(Spec.C03.automatonOk pre op accepted post) then fail "processed-exactly-once"; fails := fails + 1
-          if !(Spec.C03.queueOk post) then fail "queue-bijection"; fails := fails + 1
-          if consecutive && Spec.C03.queueFutureOk pre then
-            if !(Spec.C03.queueFutureOk post) then fail "stale-queue-entry"; fails := fails + 1
-        else if prop == "C03" then
-          if !(Spec.C03.automatonOk pre op accepted post) then fail "automaton"; fails := fails + 1
-          if !(Spec.C03.createdOk pre op accepted post) then fail "created"; fails := fails + 1
-          if !(Spec.C03.progressOk pre op accepted post) then fail "progress"; fails := fails + 1
-          if !(Spec.C03.sameBalances (Spec.C03.expectedBank pre post) post.bank) then
-            fail "paid-once"; fails := fails + 1
-          if !accepted && !(sameTables pre post) then fail "rejected-moves-nothing"; fails := fails + 1
-          if !(Spec.C03.claimLiveOk pre op accepted) then fail "right-secret-rejected"; fails := fails + 1
-          if !(Spec.C03.queueOk post) then fail "queue-bijection"; fails := fails + 1
-          if consecutive && Spec.C03.queueFutureOk pre then
-            if !(Spec.C03.claimInTime pre op accepted) then fail "claim-after-expiry"; fails := fails + 1
-            if !(Spec.C03.queueFutureOk post) then fail "stale-queue-entry"; fails := fails + 1
-        else
-          if !(Spec.C04.escrowEqB post) then fail "escrow-eq"; fails := fails + 1
-          match op with
-          | .create _ to _ _ _ _ _ =>
-            if accepted && to == escrow then fail "escrow-as-recipient-accepted"; fails := fails + 1
-          | _ => pure ()
-          if !(Spec.C04.countersB post) then fail "counters"; fails := fails + 1
-          let isSet := match op with | .setParams _ _ => true | _ => false
-          if !isSet && Spec.C04.limitsB pre && !(Spec.C04.limitsB post) then fail "limits"; fails := fails + 1
-          if !(Spec.C04.supplyTrackB s0 post) then fail "bank-supply"; fails := fails + 1
-          if !(Spec.C04.tlDeltaB pre op accepted post) then fail "time-limited-delta"; fails := fails + 1
-          match op with
-          | .beginBlock _ t => if !(Spec.C04.windowB pre t post) then fail "window"; fails := fails + 1
-          | _ => pure ()
-          -- refund at expiry cannot fail: nothing due in this step stays open
-          if !(Spec.C03.progressOk pre op accepted post) then fail "refund-failed"; fails := fails + 1
+        let panicked := o.head? == some "panic"
+        consecutive := consecutive && Spec.C03.chainOpB pre op
+        let fs :=
+          if prop == "C13" then Spec.C03.stepFails13 consecutive pre op accepted panicked post
+          else if prop == "C03" then Spec.C03.stepFails consecutive pre op accepted panicked post
+          else Spec.C04.stepFails s0 pre op accepted panicked post
+        for c in fs do
+          fail c; fails := fails + 1
         pre := post
       | _, _ => fail "parse"; fails := fails + 1
   out.putStrLn s!"mon {prop} done steps={steps} fails={fails}"
